@@ -626,14 +626,16 @@ class Interp:
         name = f"{fr.fn.ref.qualname}/loop{self.task.loop_ordinal(fr.fn.ref, s)}"
         view0 = self.loop_view(fr, None)
         self.check_inv(st, spec, view0, f"{name}/inv-init")
+        entry = self._entry_snapshot(fr)  # as for `for` loops: the invariant may refer to `at_entry` / `trace_mark_`
         self.havoc_loop(st, s, spec, fr)
-        view = self.loop_view(fr, None)
+        view = self.loop_view(fr, None, None, entry)
         self.assume_inv(st, spec, view)
         watched = self._watch_lists(s, spec, fr)
         if self.truth(st, self.eval(st, s.test, fr)):
-            d0 = spec.decreases(self.loop_view(fr, None)) if spec.decreases else None
+            d0 = spec.decreases(self.loop_view(fr, None, None, entry)) if spec.decreases else None
             if d0 is not None:
                 st.oblige(f"{name}/decreases-bounded", V._cmp(">=", d0, 0), "termination")
+            mark = len(st.trace)
             try:
                 self.exec_block(st, s.body, fr)
             except _Break:
@@ -642,7 +644,7 @@ class Interp:
             except _Continue:
                 pass
             self._check_watched(watched, name)
-            v2 = self.loop_view(fr, None)
+            v2 = self.loop_view(fr, None, None, entry, mark)
             self.check_inv(st, spec, v2, f"{name}/inv-preserve")
             if d0 is not None:
                 st.oblige(f"{name}/decreases", V._cmp("<", spec.decreases(v2), d0), "termination")
